@@ -37,6 +37,7 @@ import YataProofs.Indicators.RSIRun
 import YataProofs.Indicators.BBRun
 import YataProofs.Indicators.KeltnerRun
 import YataProofs.Indicators.CMORun
+import YataProofs.Indicators.ADXRun
 import YataProofs.Indicators.AroonRun
 import YataProofs.Indicators.PChanRun
 import YataProofs.Numeric.TSIRange
@@ -226,6 +227,19 @@ theorem C12_cmo_run {P : Nat} (c : CMOCfg) (k0 : Candle ℚ) (s0 : CMO) (h0 : CM
     ∃ outs s', runM CMO.vals s0 cs = .ok (outs, s') ∧ outs.length = cs.length ∧
       ∀ i (hi : i < outs.length), ∃ v, outs[i] = [v] ∧ -1 ≤ v.value ∧ v.value ≤ 1 := CMO.run_range c k0 s0 h0 cs
 
+/-- ADX over whole candle streams, from its constructor, every accepted configuration whose final average cannot
+    overshoot: no step panics and the ADX value is in [0, 1] at every step — with no assumption on the candles or on the
+    sign of the directional quotients (the `fix:` in `adx()` made the input of the final average a value of [0, 1]
+    whatever rounding residue the windowed averages hold: `C12_adx_input_unit`) -/
+theorem C12_adx_run {P : Nat} (m1 m2 : MA) (period1 : Nat) (zone : ℚ) (k0 : Candle ℚ) (s0 : ADX)
+    (h1 : validLen P m1.kind m1.length) (h2 : validLen P m2.kind m2.length) (hs : smoothKind m2.kind = true)
+    (h0 : ADX.init P m1 m2 period1 zone k0 = .ok s0) (cs : List (Candle ℚ)) :
+    ∃ outs s', runM ADX.step s0 cs = .ok (outs, s') ∧ outs.length = cs.length ∧
+      ∀ i (hi : i < outs.length), ∃ a p m, (outs[i]).map VExp.value = [a, p, m] ∧ 0 ≤ a ∧ a ≤ 1 :=
+  ADX.run_range m1 m2 period1 zone k0 s0 h1 h2 hs h0 cs
+
+theorem C12_adx_input_unit (plus minus : ℚ) : 0 ≤ ADX.tOf plus minus ∧ ADX.tOf plus minus ≤ 1 := ADX.tOf_range plus minus
+
 /-- Aroon over whole candle streams, from its constructor: no step panics, both values in [0, 1] at every step -/
 theorem C12_aroon_run {P : Nat} (c : AroonCfg) (k0 : Candle ℚ) (hv : Aroon.validate P c = true) (cs : List (Candle ℚ)) :
     ∃ s0 outs s', Aroon.init P c k0 = .ok s0 ∧ runM (Aroon.valsR P) s0 cs = .ok (outs, s') ∧ outs.length = cs.length ∧
@@ -287,3 +301,5 @@ end Yata.C12
 #print axioms Yata.C12.C12_cmo_run
 #print axioms Yata.C12.C12_aroon_run
 #print axioms Yata.C12.C12_channels_order_run
+#print axioms Yata.C12.C12_adx_run
+#print axioms Yata.C12.C12_adx_input_unit
